@@ -174,6 +174,19 @@ func message(dir int, item *refwire.Item, minor ...int) []byte {
 
 // viaEncoding converts the binary message generically (ttlv.Value, no typed dispatch) and decodes it with the
 // typed target; returns the decoded message and its binary re-encoding
+var docCache = map[string][]byte{}
+
+// extendRegistry: what an application with vendor extensions does at any time: more values of standard enumerations get names.
+// What a standard item decodes to does not depend on it.
+func extendRegistry() {
+	ttlv.RegisterEnum(kmip.TagOperation, map[kmip.Operation]string{kmip.Operation(0x80000321): "VendorOperation"})
+	ttlv.RegisterEnum(kmip.TagObjectType, map[kmip.ObjectType]string{kmip.ObjectType(0x80000322): "VendorObject"})
+	ttlv.RegisterEnum(kmip.TagResultStatus, map[kmip.ResultStatus]string{kmip.ResultStatus(0x80000323): "VendorStatus"})
+	ttlv.RegisterEnum(kmip.TagResultReason, map[kmip.ResultReason]string{kmip.ResultReason(0x80000324): "VendorReason"})
+	ttlv.RegisterEnum(kmip.TagState, map[kmip.State]string{kmip.State(0x80000325): "VendorState"})
+	ttlv.RegisterEnum(kmip.TagCryptographicAlgorithm, map[kmip.CryptographicAlgorithm]string{kmip.CryptographicAlgorithm(0x80000326): "VendorAlgorithm"})
+}
+
 func viaEncoding(enc string, bin []byte, dir int) (any, []byte, error) {
 	var target any = new(kmip.RequestMessage)
 	if dir != 1 {
@@ -190,15 +203,27 @@ func viaEncoding(enc string, bin []byte, dir int) (any, []byte, error) {
 		case "ttlv":
 			err = ttlv.UnmarshalTTLV(bin, target)
 		default:
-			var generic ttlv.Value
-			if err = ttlv.UnmarshalTTLV(bin, &generic); err != nil {
-				err = fmt.Errorf("harness: generic decode: %w", err)
-				return
+			// the document is written once (first pass) and kept: a peer's document does not change when this process extends
+			// its registry afterwards
+			key := enc + ":" + string(bin)
+			doc, ok := docCache[key]
+			if !ok {
+				var generic ttlv.Value
+				if err = ttlv.UnmarshalTTLV(bin, &generic); err != nil {
+					err = fmt.Errorf("harness: generic decode: %w", err)
+					return
+				}
+				if enc == "xml" {
+					doc = ttlv.MarshalXML(generic)
+				} else {
+					doc = ttlv.MarshalJSON(generic)
+				}
+				docCache[key] = append([]byte(nil), doc...)
 			}
 			if enc == "xml" {
-				err = ttlv.UnmarshalXML(ttlv.MarshalXML(generic), target)
+				err = ttlv.UnmarshalXML(doc, target)
 			} else {
-				err = ttlv.UnmarshalJSON(ttlv.MarshalJSON(generic), target)
+				err = ttlv.UnmarshalJSON(doc, target)
 			}
 		}
 	}()
@@ -267,6 +292,9 @@ func TestDispatch(t *testing.T) {
 		cases = append(cases, cases[k])
 	}
 	for i, c := range cases {
+		if i == n0 {
+			extendRegistry() // between the two passes
+		}
 		var probs []string
 		codes := []int{c.Code}
 		if c.Kind == "op" && c.Name == "" && c.Code == 2147483647 {
